@@ -502,6 +502,7 @@ Section Exec.
         end
     (* ---------------- environment ---------------- *)
     | CFdWrite _ | CFire _ _ _ | CFireTick | CSetErrno _ => ret (exec_env w c) 0
+    | CForeign _ _ => w            (* handled by exec *)
     | CLive =>
         emit w (TLive (count_live w OMod) (count_live w OSrc) (count_live w OMsg) (count_live w OEvt)
                       (count_live w OData) (count_live w OCtx) (w_fds w))
@@ -517,6 +518,7 @@ Section Exec.
     | CTell _ _ _ _ => 30 | CPublish _ _ _ _ => 31 | CBroadcast _ _ _ => 32 | CPill _ _ => 33
     | CSrcReg _ _ _ _ _ _ _ => 34 | CSrcDereg _ _ _ => 35 | CSrcLen _ _ => 36
     | CFdWrite _ => 37 | CFire _ _ _ => 38 | CFireTick => 39 | CSetErrno _ => 40 | CLive => 41 | CTellMany _ _ _ _ => 42
+    | CForeign _ _ => 43
     end.
 
   Definition call_arg (c : call) : N :=
@@ -527,11 +529,27 @@ Section Exec.
     end.
 
   (* every scripted call announces itself in the trace (TMark), then runs *)
-  Definition exec (cur : list evtrec) (w0 : world) (c : call) : world :=
+  Definition exec_own (cur : list evtrec) (w0 : world) (c : call) : world :=
     let w := emit w0 (TMark (call_tag c) (call_arg c)) in
     match call_handle c with
     | Some m => if Nat.eqb (uref_count w m) 0 then ret w rEINVAL else exec_call cur w c
     | None => exec_call cur w c
+    end.
+
+  (* a call made by another thread: that thread's m_ctx() is its own context (a fresh one) or NULL *)
+  Definition exec (cur : list evtrec) (w0 : world) (c : call) : world :=
+    match c with
+    | CForeign own c' =>
+        let saved := w_tls w0 in
+        let w1 := set_tls (emit w0 (TMark 43 0)) None in
+        let w2 := if own then
+                    let '(wa, o) := halloc w1 OCtx [] 0 in
+                    set_tls (set_fds wa (S (w_fds wa))) (Some (mkCtx o CIdle false 0 false true [] None 0 0 0 None 0))
+                  else w1 in
+        let w3 := match c' with CForeign _ _ => w2 | _ => exec_own cur w2 c' end in
+        let w4 := if own then match w_tls w3 with Some c2 => hunref (set_tls w3 None) (c_obj c2) | None => w3 end else w3 in
+        set_tls w4 saved
+    | _ => exec_own cur w0 c
     end.
 
   (* a procedure: calls in sequence; a blocking loop consumes the environment
